@@ -25,7 +25,7 @@ meta = dict(
         "VERIF_REPO=<patched tree> ./check %s --tier %s --no-evidence: exit %s in %s s" % (prop, res.get("tier"), res.get("check_rc"), res.get("check_wall_s")),
         "replay of the first counterexample on the patched tree: exit %s; on /repo: exit %s" % (res.get("replay_on_mutant_rc"), res.get("replay_on_repo_rc")),
     ],
-    detected=(res.get("check_rc") == 1),
+    detected=(res.get("check_rc") == 1 and bool(res.get("violations"))),
     detected_by_signatures=[v[0] for v in res.get("violations", [])],
     valid_seed=(res.get("tests_passed") == 42 and not res.get("tests_failed") and res.get("demo_without_change_rc") == 0
                 and res.get("demo_with_change_rc") not in (0, None)),
